@@ -11,8 +11,16 @@ spec/VTerm.tla; judge: spec/VTermTrace.tla.
     directed sequences, encoded as bytes, fed in random chunks to a real TermCanvas; after every command the
     grid, cursor, scrollback, pen, region, tab stops, modes and replies are recorded and compared by TLC with
     the reference stepped by the same command.
+    The main character set (ESC % G: UTF-8, ESC % @: 8-bit characters) is a command ("mcs"), runs of bytes at or above 0x80 go to the
+    emulator as they are ("raw") and are decoded by the reference itself; with urwid's encoding "utf8" the terminal is locked to
+    UTF-8, with any other encoding ("utf-8", "iso8859-1") the program's selection counts.
+    "any chunking of the stream across feeds": after the per-command events every trace feeds its whole stream again to fresh
+    emulators under other chunkings (one feed, byte by byte, every single cut for the charset family, random cuts); each final
+    screen / cursor / scrollback / pen / region / tab stops / modes / replies is a "refeed" event judged against the same reference state.
 (b) robustness: arbitrary / malformed byte streams, any chunking, resizes down to 1x1, under a CPU-time watchdog;
-    per feed: exception class, row lengths, cursors, region, replies.  No verdict is computed here.
+    per feed: exception class, row lengths, cursors, region, replies; then the same operations with the bytes cut differently
+    ("rechunk": one feed, byte by byte, random cuts): both outcomes are recorded side by side and compared by TLC.
+    No verdict is computed here.
 """
 from __future__ import annotations
 
@@ -26,14 +34,17 @@ from .. import tlc
 
 LISTED = ("put", "cr", "lf", "ri", "bs", "cup", "cuu", "cud", "cuf", "cub", "el", "ed", "ich", "dch", "il", "dl", "stbm", "sgr")
 EXT = ("txt", "ind", "nel", "cha", "vpa", "cnl", "cpl", "ech", "ht", "hts", "tbc", "decom", "irm", "decawm", "lnm",
-       "decsc", "decrc", "scosc", "scorc", "so", "si", "scs")
+       "decsc", "decrc", "scosc", "scorc", "so", "si", "scs", "mcs", "raw")
 QUERY = ("cpr", "dsr", "da")
 CMDS = LISTED + EXT + QUERY
 # commands after which a VT100 still has its last-column flag (the cursor does not move)
-KEEPS_FLAG = ("el", "ed", "ech", "sgr", "ht", "hts", "tbc", "irm", "decawm", "lnm", "decsc", "scosc", "so", "si", "scs", "view") + QUERY
+KEEPS_FLAG = ("el", "ed", "ech", "sgr", "ht", "hts", "tbc", "irm", "decawm", "lnm", "decsc", "scosc", "so", "si", "scs", "mcs", "view", "refeed") + QUERY
 CPU_BUDGET_S = 4.0     # user CPU seconds of this process for ONE feed (ITIMER_VIRTUAL: machine load cannot trip it)
 WALL_BUDGET_S = 90.0   # backstop for a feed that blocks without burning CPU
 LOOP_FINALS = b"LM@P"  # insert/delete lines/characters
+TEXT_CMDS = ("put", "txt", "raw")
+# urwid encodings of the faithfulness part: "utf8" locks the emulator's decoder to UTF-8; the others leave the choice to ESC % G / ESC % @
+UNLOCKED_ENCS = ("utf-8", "iso8859-1")
 
 
 class _Hang(BaseException):
@@ -47,11 +58,14 @@ class Stub:
         self.term_modes = modes
         self.canvas = None
         self.replies = []
+        self.all_replies = []
         self.titles = 0
 
     def respond(self, string):
         x, y = self.canvas.term_cursor
-        self.replies.append({"s": [ord(c) for c in string], "x": x, "y": y})
+        r = {"s": [ord(c) for c in string], "x": x, "y": y}
+        self.replies.append(r)
+        self.all_replies.append(r)
 
     def set_title(self, title):
         self.titles += 1
@@ -121,30 +135,38 @@ def pen_of(a):
     return [fg, bg, mask]
 
 
-def cell_of(c):
+def cell_of(c, enc="utf8"):
+    """a cell holds one ASCII / 8-bit character as its byte, or one assembled character encoded in urwid's encoding"""
     attr, cs, bs = c
-    try:
-        s = bs.decode("utf-8")
-    except UnicodeDecodeError:
+    if len(bs) == 1:
         s = bs.decode("latin-1")
+    else:
+        try:
+            s = bs.decode(enc)
+        except UnicodeDecodeError:
+            try:
+                s = bs.decode("utf-8")
+            except UnicodeDecodeError:
+                s = bs.decode("latin-1")
     if cs == "0" and len(s) == 1:
         s = vt.DEC_OF_ALT.get(s, s)
     cp = ord(s) if len(s) == 1 else -2
     return [cp, *pen_of(attr)]
 
 
-def observe(t):
+def observe(t, enc="utf8"):
     m = t.modes
-    return {"g": [[cell_of(c) for c in row] for row in t.content()],
+    return {"g": [[cell_of(c, enc) for c in row] for row in t.content()],
             "cur": list(t.term_cursor),
-            "sb": [[cell_of(c) for c in row] for row in t.scrollback_buffer],
+            "sb": [[cell_of(c, enc) for c in row] for row in t.scrollback_buffer],
             "pen": pen_of(t.empty_char()[0]),
             "reg": [t.scrollregion_start, t.scrollregion_end],
             "tabs": [x for x in range(t.width) if t.is_tabstop(x)],
-            "md": [int(bool(m.constrain_scrolling)), int(bool(m.insert)), int(bool(m.autowrap)), int(bool(m.lfnl))]}
+            "md": [int(bool(m.constrain_scrolling)), int(bool(m.insert)), int(bool(m.autowrap)), int(bool(m.lfnl))],
+            "cs": int(t.charset.current == "0")}
 
 
-NO_OBS = {"g": [], "cur": [0, 0], "sb": [], "pen": [-1, -1, 0], "reg": [0, 0], "tabs": [], "md": [0, 0, 1, 0]}
+NO_OBS = {"g": [], "cur": [0, 0], "sb": [], "pen": [-1, -1, 0], "reg": [0, 0], "tabs": [], "md": [0, 0, 1, 0], "cs": 0}
 
 
 # ---- (a) commands -> bytes ---------------------------------------------------------------------------------
@@ -180,6 +202,10 @@ def encode(cmd, rng):
         return (E + rng.choice(["", "", "0"]) + ("s" if t == "scosc" else "u")).encode()
     if t == "scs":
         return b"\x1b" + (b"(" if a == 0 else b")") + bytes([b])
+    if t == "mcs":     # select the main character set: UTF-8 (ESC % G, obsolete ESC % 8) / the default 8-bit set (ESC % @)
+        return (b"\x1b%8" if rng.random() < 0.15 else b"\x1b%G") if a else b"\x1b%@"
+    if t == "raw":     # the bytes as they are
+        return bytes(ps)
     if t in ("decom", "irm", "decawm", "lnm"):
         num = {"decom": "?6", "irm": "4", "decawm": "?7", "lnm": "20"}[t]
         if rng.random() < 0.2:       # the same mode named twice in one sequence
@@ -301,10 +327,116 @@ class SgrKinds:
         return any(self.k[h] == "bright" and self.age[h] >= 1 for h in self.k)
 
 
+# ---- "any chunking of the stream across feeds" ---------------------------------------------------------------------
+def stream_ops(steps):
+    """The trace as what reaches the emulator: runs of bytes (consecutive commands joined) and the resizes at their positions."""
+    ops = []
+    for st in steps:
+        if st["t"] == "resize":
+            ops.append(("rsz", st["w"], st["h"]))
+        elif st["t"] != "view":
+            data = b"".join(bytes.fromhex(p) for p in st["pieces"])
+            if ops and ops[-1][0] == "bytes":
+                ops[-1] = ("bytes", ops[-1][1] + data)
+            else:
+                ops.append(("bytes", data))
+    return ops
+
+
+def stream_len(steps):
+    return sum(len(op[1]) for op in stream_ops(steps) if op[0] == "bytes")
+
+
+def cut_run(data, off, policy):
+    """The pieces the run of bytes at stream offsets off .. off + len(data) is fed in under a chunking policy
+    {"mode": "whole" | "bytes" | "cuts", "cuts": [stream offsets]}."""
+    if policy["mode"] == "bytes":
+        return [data[i:i + 1] for i in range(len(data))]
+    cuts = [c - off for c in policy.get("cuts", []) if off < c < off + len(data)] if policy["mode"] == "cuts" else []
+    return [data[i:j] for i, j in zip([0, *cuts], [*cuts, len(data)])]
+
+
+def refeed_policies(steps, rng, singles, n_random):
+    """whole stream in one feed (per run between resizes), byte by byte, cut once at each of `singles` positions (-1: at every
+    position), and n_random random multi-cut chunkings"""
+    n = stream_len(steps)
+    out = [{"mode": "whole"}, {"mode": "bytes"}]
+    if n >= 2:
+        singles = list(range(1, n)) if singles < 0 or singles >= n - 1 else sorted(rng.sample(range(1, n), singles))
+        out += [{"mode": "cuts", "cuts": [c]} for c in singles]
+        for _ in range(n_random):
+            out.append({"mode": "cuts", "cuts": sorted(rng.sample(range(1, n), rng.randint(1, min(4, n - 1))))})
+    return out
+
+
+def light_refeeds(steps, rng):
+    """for the families that are not about the character set: the whole stream in one feed and one other chunking"""
+    pols = refeed_policies(steps, rng, 0, 1)
+    return [pols[0], pols[-1]]
+
+
+def switch_and_high_bytes_in_one_feed(steps, policy):
+    """Diagnostic / vacuity only: how often a selection of the main character set and the first byte >= 0x80 after it reach the
+    emulator in the same addstr() call under this chunking."""
+    if policy["mode"] == "bytes":
+        return 0
+    cuts = set(policy.get("cuts", [])) if policy["mode"] == "cuts" else set()
+    off, last_mcs_end, n = 0, None, 0
+    for st in steps:
+        if st["t"] == "resize":
+            last_mcs_end = None       # a resize ends the feed
+            continue
+        if st["t"] == "view":
+            continue
+        data = b"".join(bytes.fromhex(p) for p in st["pieces"])
+        if st["t"] == "mcs":
+            last_mcs_end = off + len(data)
+        elif last_mcs_end is not None:
+            hi = next((i for i, b in enumerate(data) if b >= 0x80), None)
+            if hi is not None:
+                n += not any(last_mcs_end <= c <= off + hi for c in cuts)
+                last_mcs_end = None
+        off += len(data)
+    return n
+
+
+def run_refeed(spec, policy, enc):
+    """The whole stream of the trace, fed to a fresh emulator under another chunking: what it shows at the end."""
+    emu = Emu(spec["w"], spec["h"], enc)
+    t = emu.t
+    size = [spec["w"], spec["h"]]
+
+    def go():
+        off = 0
+        for op in stream_ops(spec["steps"]):
+            if op[0] == "rsz":
+                size[:] = [op[1], op[2]]
+                t.resize(op[1], op[2])
+            else:
+                for piece in cut_run(op[1], off, policy):
+                    t.addstr(piece)
+                off += len(op[1])
+
+    exc, hang = guarded(go)
+    e = {"t": "refeed", "a": 0, "b": 0, "ps": [], "exc": "WatchdogHang" if hang else exc, "w": size[0], "h": size[1], "k": 0, "rot": 0,
+         "policy": policy}
+    try:
+        e.update(observe(t, enc))
+    except Exception as ex:  # noqa: BLE001
+        e["exc"] = e["exc"] or "observe:" + type(ex).__name__
+        e.update(NO_OBS)
+    e["reps"] = list(emu.stub.replies)
+    e["pend"] = int(bool(t.is_rotten_cursor))
+    e["d_switch_and_high_bytes_in_one_feed"] = switch_and_high_bytes_in_one_feed(spec["steps"], policy)
+    return e
+
+
 def run_a(spec):
-    """spec = {w, h, steps:[cmd step | {"t":"resize",w,h} | {"t":"view",k}], driver}.  Returns a trace for VTermTrace."""
+    """spec = {w, h, steps:[cmd step | {"t":"resize",w,h} | {"t":"view",k}], driver, enc, refeeds:[chunking policy]}.
+    Returns a trace for VTermTrace."""
     w, h = spec["w"], spec["h"]
-    emu = Emu(w, h, "utf8")
+    enc = spec.get("enc", "utf8")
+    emu = Emu(w, h, enc)
     t = emu.t
     ev = []
     stale_by = ""   # first command that clears a VT100's last-column flag since the emulator last set its pending-wrap flag
@@ -339,11 +471,11 @@ def run_a(spec):
             def look():
                 t.scroll_buffer(up=True, lines=st["k"])  # noqa: B023
                 try:
-                    view.extend([cell_of(c) for c in row] for row in t.content())  # noqa: B023
+                    view.extend([cell_of(c, enc) for c in row] for row in t.content())  # noqa: B023
                 finally:
                     t.scroll_buffer(reset=True)
 
-            pre = observe(t)
+            pre = observe(t, enc)
             exc, hang = guarded(look)
             e["view"] = view
         else:
@@ -356,7 +488,7 @@ def run_a(spec):
             exc, hang = guarded(feed)
             if k == "sgr":
                 kinds.apply(st["ps"])
-            if k in ("put", "txt"):
+            if k in TEXT_CMDS:
                 stale_by = ""
             elif k not in KEEPS_FLAG and not nothing_to_restore:
                 stale_by = stale_by or k
@@ -369,7 +501,7 @@ def run_a(spec):
                 restored_after_scs = True
         e["exc"] = "WatchdogHang" if hang else exc
         try:
-            e.update(pre if k == "view" else observe(t))
+            e.update(pre if k == "view" else observe(t, enc))
         except Exception as ex:  # noqa: BLE001
             e["exc"] = e["exc"] or "observe:" + type(ex).__name__
             e.update(NO_OBS)
@@ -380,10 +512,17 @@ def run_a(spec):
         e["d_bright_carried"] = kinds.bright_carried()
         e["d_sgr_trailing_zero_component"] = k == "sgr" and kinds.trailing_zero_component
         e["d_restored_after_scs"] = restored_after_scs
+        e["d_switch_and_high_bytes_in_one_feed"] = 0
         ev.append(e)
         if e["exc"]:
             break
-    return {"kind": "a", "w": spec["w"], "h": spec["h"], "driver": spec.get("driver", ""), "spec": spec, "ev": ev}
+    else:
+        # the same stream under other chunkings, each on a fresh emulator; the diagnostics are those of the last command
+        diag = {k: v for k, v in (ev[-1] if ev else {}).items() if k.startswith("d_")}
+        for policy in (spec.get("refeeds", []) if ev else []):
+            e = run_refeed(spec, policy, enc)
+            ev.append({**diag, **e})
+    return {"kind": "a", "w": spec["w"], "h": spec["h"], "lock": int(enc == "utf8"), "driver": spec.get("driver", ""), "spec": spec, "ev": ev}
 
 
 # ---- (b) arbitrary byte streams ----------------------------------------------------------------------------
@@ -405,8 +544,75 @@ def stream_features(cum: bytes) -> dict:
     return f
 
 
+class Interner:
+    """Cells and pieces of emulator state as small numbers, equal values to equal numbers (TLC compares them)."""
+
+    def __init__(self):
+        self.ids = {}
+
+    def __call__(self, x):
+        return self.ids.setdefault(repr(x), len(self.ids))
+
+
+def final_state_b(t, emu, num):
+    """What the emulator has made of the stream: everything that later output or a later view can depend on."""
+    import dataclasses
+
+    cs = t.charset
+    return {"g": [[num(c) for c in row] for row in t.content()],
+            "sb": [[num(c) for c in row] for row in t.scrollback_buffer],
+            "cur": list(t.term_cursor), "ccur": list(t.cursor) if t.cursor is not None else [],
+            "reg": [t.scrollregion_start, t.scrollregion_end],
+            "st": [num(x) for x in (dataclasses.astuple(t.modes), t.attrspec, (cs._g, cs.active, cs.current, cs._sgr_mapping), list(t.tabstops),
+                                    bool(t.is_rotten_cursor), t.saved_cursor, (t.within_escape, t.parsestate, bytes(t.escbuf)),
+                                    (t.utf8_eat_bytes, bytes(t.utf8_buffer) if t.utf8_eat_bytes is not None else b""), emu.stub.titles)],
+            "reps": list(emu.stub.all_replies)}
+
+
+def rechunk_policies(spec, rng_seed):
+    """one feed per run of bytes between two resizes, byte by byte, and spec["rechunk_cuts"] random chunkings"""
+    import random
+
+    rng = random.Random(rng_seed)
+    n = sum(len(op["hex"]) // 2 for op in spec["ops"] if op["t"] == "feed")
+    out = [{"mode": "whole"}, {"mode": "bytes"}]
+    for _ in range(spec.get("rechunk_cuts", 1) if n >= 2 else 0):
+        out.append({"mode": "cuts", "cuts": sorted(rng.sample(range(1, n), rng.randint(1, min(5, n - 1))))})
+    return out
+
+
+def run_rechunk(spec, policy, first, num):
+    """The operations of the trace once more on a fresh emulator, the bytes between two resizes cut by another policy."""
+    emu = Emu(spec["w"], spec["h"], spec["enc"], spec["focus"])
+    t = emu.t
+    size = [spec["w"], spec["h"]]
+    steps = [{"t": "resize", "w": op["w"], "h": op["h"]} if op["t"] == "rsz" else {"t": "feed", "pieces": [op["hex"]]} for op in spec["ops"]]
+
+    def go():
+        off = 0
+        for op in stream_ops(steps):
+            if op[0] == "rsz":
+                size[:] = [op[1], op[2]]
+                t.resize(op[1], op[2])
+            else:
+                for piece in cut_run(op[1], off, policy):
+                    t.addstr(piece)
+                off += len(op[1])
+
+    exc, hang = guarded(go)
+    e = {"t": "rechunk", "exc": exc, "hang": hang, "w": size[0], "h": size[1], "nq": -1, "qk": 0, "hex": "", "policy": policy}
+    try:
+        e.update(final_state_b(t, emu, num))
+    except Exception as ex:  # noqa: BLE001
+        e["exc"] = e["exc"] or "observe:" + type(ex).__name__
+        e.update({"g": [], "sb": [], "cur": [0, 0], "ccur": [], "reg": [0, 0], "st": [], "reps": []})
+    e["lens"] = [len(r) for r in e["g"]]
+    e.update({k + "0": v for k, v in first.items()})
+    return e
+
+
 def run_b(spec):
-    """spec = {enc, w, h, focus, ops:[{"t":"feed",hex,nq,qk} | {"t":"rsz",w,h}]}.  Returns a trace for VTermTrace."""
+    """spec = {enc, w, h, focus, ops:[{"t":"feed",hex,nq,qk} | {"t":"rsz",w,h}], rechunk: seed}.  Returns a trace for VTermTrace."""
     w, h = spec["w"], spec["h"]
     emu = Emu(w, h, spec["enc"], spec["focus"])
     t = emu.t
@@ -450,7 +656,14 @@ def run_b(spec):
         ev.append(e)
         if e["exc"] or hang:
             break   # the emulator was interrupted in the middle of an update: nothing further is meaningful
-    return {"kind": "b", "w": spec["w"], "h": spec["h"], "spec": spec, "ev": ev}
+    else:
+        if ev and not spec["hangy"] and spec.get("rechunk") is not None:
+            num = Interner()
+            first = final_state_b(t, emu, num)
+            diag = {k: v for k, v in ev[-1].items() if k.startswith("d_") and k != "d_cols"}
+            for policy in rechunk_policies(spec, spec["rechunk"]):
+                ev.append({**diag, **run_rechunk(spec, policy, first, num)})
+    return {"kind": "b", "w": spec["w"], "h": spec["h"], "lock": int(spec["enc"] == "utf8"), "spec": spec, "ev": ev}
 
 
 HUGE = ["999999999", "2147483647", "2147483648", "4294967296", "1000000000000", "100000000000000000000"]
@@ -538,6 +751,9 @@ class BGen:
         if r < 0.77:   # modes
             m = rng.choice(["?6", "?7", "4", "20", "3", "?5", "?25", "?1", "?3", "?2004", "?1049", "?6;7", "4;20", "?", "", "?999999999999"])
             return f"\x1b[{m}{rng.choice('hl')}".encode()
+        if r < 0.80:   # the main character set selected in the middle of the stream, bytes >= 0x80 right behind it
+            return rng.choice([b"\x1b%G", b"\x1b%G", b"\x1b%@", b"\x1b%@", b"\x1b%8"]) + \
+                (rng.choice(["é", "字a", "ß€", "Ûx"]).encode("utf-8") if rng.random() < 0.8 else bytes(rng.randrange(0x80, 0x100) for _ in range(3)))
         if r < 0.85:   # OSC
             title = rng.choice([b"t", b"title", "tïtle".encode(), b"\xff", b"a\x80b", b"\xe9t\xe9", b"", b"x" * 40, b"\xc3", b"a;b;c", b"\x1b[31m"])
             head = rng.choice([b"0;", b"2;", b";", b"1;", b"00;", b"P1234567", b"R", b"", b"52;c;", b"4;1;?"])
@@ -571,6 +787,7 @@ class BGen:
                 qk = rng.choice([5, 6])
                 spec["ops"].append({"t": "feed", "hex": (b"\x07\x18\x1b[%dn" % qk).hex(), "nq": 1, "qk": qk})
         spec["hangy"] = self.hangy
+        spec["rechunk"] = rng.randrange(2 ** 30)
         return spec
 
 
@@ -583,6 +800,10 @@ SGRS = [[48, 5, 0], [38, 2, 0, 0, 0], [0], [], [31], [42], [1], [4], [7], [5], [
 
 def random_ext_cmd(rng, w, h, i, g1d):
     """one command outside the literally listed subset (VTermOps: Ext, Query)"""
+    if rng.random() < 0.06:      # the main character set, and characters beyond ASCII as the bytes on the wire (this terminal is locked to UTF-8)
+        if rng.random() < 0.5:
+            return _c("mcs", rng.randint(0, 1))
+        return raw_cmd(rng, True, "utf8", rng.randint(1, w + 1))
     r = rng.random() * 100
     if r < 14:
         return _c("txt", ps=[97 + (i + j) % 26 for j in range(rng.randint(2, w + 2))])
@@ -623,12 +844,14 @@ def random_a_spec(rng, ext=0.0):
         w, h = rng.choice([1, 2, 3, 4, 5, 9, 10, 17]), rng.choice([1, 2, 3, 4, 4, 5])
     spec = {"w": w, "h": h, "steps": [], "driver": "random-ext" if ext else "random"}
     g1d = False    # G1 is invoked only after it has been designated (console default: graphics, VT100 default: ASCII)
+    mcs = False    # ... and designated it is only while the 8-bit set is selected (the console ignores designations in UTF-8)
     for i in range(rng.randint(8, 18)):
         r = rng.random() * 100
         cnt = lambda: rng.randint(0, w + 1)  # noqa: E731
         if ext and rng.random() < ext:
             c = random_ext_cmd(rng, w, h, i, g1d)
-            g1d = g1d or (c["t"] == "scs" and c["a"] == 1)
+            g1d = g1d or (c["t"] == "scs" and c["a"] == 1 and not mcs)
+            mcs = bool(c["a"]) if c["t"] == "mcs" else mcs
         elif r < 26:
             c = {"t": "put", "a": rng.choice([97 + i % 26, 65 + i % 26, 233, 126]), "b": 0, "ps": []}
         elif r < 30:
@@ -668,6 +891,82 @@ def random_a_spec(rng, ext=0.0):
 
 def _c(t, a=0, b=0, ps=()):
     return {"t": t, "a": a, "b": b, "ps": list(ps)}
+
+
+# width-1 characters beyond ASCII; the Latin-1 ones can be shown in every encoding of the faithfulness part
+LATIN1_CPS = list(range(0xA0, 0x100))
+WIDER_CPS = [0x100, 0x153, 0x17F, 0x3B1, 0x3C9, 0x416, 0x5D0, 0x20AC, 0x2190, 0x2500, 0x253C, 0x2592, 0x2800, 0x28FF, 0x2603, 0xFB01]
+
+
+def raw_cmd(rng, utf8_on, enc, k):
+    """k characters beyond ASCII as the bytes that are on the wire in the main character set in force: UTF-8 sequences, or single
+    bytes 0xA0..0xFF (0x80..0x9F are C1 controls on an 8-bit terminal)."""
+    if utf8_on:
+        cps = [rng.choice(LATIN1_CPS if enc.startswith("iso") or rng.random() < 0.6 else WIDER_CPS) for _ in range(k)]
+        return _c("raw", k, 0, list("".join(map(chr, cps)).encode("utf-8")))
+    return _c("raw", k, 0, [rng.randrange(0xA0, 0x100) for _ in range(k)])
+
+
+def random_charset_spec(rng, singles=-1, n_random_refeeds=2):
+    """The program selects the main character set in the middle of its output (urwid's encoding is not "utf8": the selection counts,
+    or "utf8": it must not), characters beyond ASCII follow as UTF-8 sequences / single bytes, mixed with the plain commands around
+    text; the stream is then fed again whole, byte by byte, cut at every single position and at random positions."""
+    enc = rng.choice(["utf-8", "utf-8", "iso8859-1", "iso8859-1", "utf8"])
+    w, h = rng.choice([2, 3, 4, 5, 7, 12]), rng.choice([1, 2, 3, 4])
+    spec = {"w": w, "h": h, "enc": enc, "steps": [], "driver": "random-charset"}
+    mcs = False
+    for i in range(rng.randint(4, 9)):
+        r = rng.random() * 100
+        if r < 24:
+            mcs = rng.random() < 0.6 if i else True
+            c = _c("mcs", int(mcs))
+        elif r < 58:
+            c = raw_cmd(rng, mcs or enc == "utf8", enc, rng.randint(1, w + 1))
+        elif r < 66:
+            c = _c("txt", ps=[97 + (i + j) % 26 for j in range(rng.randint(1, w + 1))])
+        elif r < 70:
+            c = _c("put", 65 + i % 26)
+        elif r < 78:
+            c = _c(rng.choice(["cr", "lf", "nel", "bs", "ri"]))
+        elif r < 83:
+            c = _c("cup", rng.randint(0, w), rng.randint(0, h))
+        elif r < 88:
+            c = _c(rng.choice(["cuf", "cub", "ech", "ich", "dch"]), rng.randint(0, w))
+        elif r < 91:
+            c = _c("el", rng.randint(0, 2))
+        elif r < 94:
+            c = _c("sgr", ps=rng.choice([[31], [42], [1], [0], [4, 35], [38, 5, 100], []]))
+        elif r < 96:
+            c = _c(rng.choice(["decsc", "decrc", "cpr", "irm", "decawm"]), rng.randint(0, 1))
+        elif r < 98:
+            w, h = rng.choice([1, 2, 3, 5, 6]), rng.choice([1, 2, 3])
+            spec["steps"].append({"t": "resize", "w": w, "h": h})
+            continue
+        else:
+            spec["steps"].append({"t": "view", "k": rng.randint(1, h + 1)})
+            continue
+        spec["steps"].append(make_step(c, rng))
+    spec["refeeds"] = refeed_policies(spec["steps"], rng, singles, n_random_refeeds)
+    return spec
+
+
+def directed_charset_specs(rng):
+    """The plain cases: select UTF-8, a character, back to the 8-bit set, the same bytes again - in every encoding; a switch that
+    changes nothing; a sequence cut by every chunking."""
+    out = []
+    for enc in ("utf-8", "iso8859-1", "utf8"):
+        lock = enc == "utf8"
+        for w, h, cmds in [
+            (12, 2, [_c("mcs", 1), _c("raw", 1, 0, [0xC3, 0xA9]), _c("put", 90), _c("mcs", 0), _c("raw", 1 if lock else 2, 0, [0xC3, 0xA9]), _c("put", 33)]),
+            (4, 3, [_c("raw", 1 if lock else 2, 0, [0xC3, 0xBF]), _c("mcs", 1), _c("raw", 3, 0, [0xC3, 0x9B, 0xC2, 0xA0, 0xC3, 0xBF]), _c("cpr"), _c("mcs", 1),
+                    _c("raw", 2, 0, [0xC3, 0xA0, 0xC3, 0xA1]), _c("mcs", 0), _c("txt", ps=[97, 98, 99])]),
+            (3, 2, [_c("mcs", 0), _c("mcs", 1), _c("mcs", 0), _c("raw", 1 if lock else 2, 0, [0xC2, 0xB5]), _c("nel"), _c("mcs", 1), _c("raw", 2, 0, [0xC2, 0xB5, 0xC3, 0x9F])]),
+        ]:
+            steps = [make_step(c, rng) for c in cmds]
+            spec = {"w": w, "h": h, "enc": enc, "steps": steps, "driver": "directed-charset"}
+            spec["refeeds"] = refeed_policies(steps, rng, -1, 2)
+            out.append(spec)
+    return out
 
 
 def directed_a_specs(rng):
@@ -739,6 +1038,13 @@ def scrollback_view_specs(rng, heights):
 
 
 def directed_b_specs():
+    out = _directed_b_specs()
+    for i, sp in enumerate(out):
+        sp["rechunk"] = 1000 + i
+    return out
+
+
+def _directed_b_specs():
     f = lambda b, nq=-1, qk=0: {"t": "feed", "hex": b.hex(), "nq": nq, "qk": qk}  # noqa: E731
     out = []
     for enc, data in [("utf-8", b"\x1b]0;\xff\x07"), ("iso8859-1", b"\x1b]2;caf\xe9\x07"), ("utf8", b"\x1b]0;a\x80b\x1b\\"), ("utf8", "\x1b]0;tïtle\x07".encode())]:
@@ -769,46 +1075,53 @@ PROPERTY RegionScrollIsLocal
 PROPERTY WrapOutsideRegion
 PROPERTY TextBelowRegion
 PROPERTY QueriesChangeNothing
+PROPERTY CharsetSwitchShowsNothing
+PROPERTY RawIsTextOfItsCharacters
 CHECK_DEADLOCK FALSE
 """
-SIM_CFG = """CONSTANTS W = {w} H = {h} Depth = {d} Clean = {clean} ExtPct = {ext} RegDepth = 1
+SIM_CFG = """CONSTANTS W = {w} H = {h} Depth = {d} Clean = {clean} ExtPct = {ext} RegDepth = 1 Lock = {lock}
 SPECIFICATION SimSpec
 INVARIANT Shape
 INVARIANT ExtShape
 CHECK_DEADLOCK FALSE
 """
-MC_CFG = """CONSTANTS W = {w} H = {h} Depth = {d} Clean = FALSE ExtPct = {ext} RegDepth = 1
+MC_CFG = """CONSTANTS W = {w} H = {h} Depth = {d} Clean = FALSE ExtPct = {ext} RegDepth = 1 Lock = {lock}
 SPECIFICATION Spec
 INVARIANT DialectWellFormed
 INVARIANT ViewLaw
 """ + LAWS
-REG_CFG = """CONSTANTS W = {w} H = {h} Depth = 0 Clean = FALSE ExtPct = 0 RegDepth = {rd}
+REG_CFG = """CONSTANTS W = {w} H = {h} Depth = 0 Clean = FALSE ExtPct = 0 RegDepth = {rd} Lock = TRUE
 SPECIFICATION RegSpec
 """ + LAWS
-REFUTE_CFG = """CONSTANTS W = {w} H = {h} Depth = 3 Clean = FALSE ExtPct = 0 RegDepth = 1
+REFUTE_CFG = """CONSTANTS W = {w} H = {h} Depth = 3 Clean = FALSE ExtPct = 0 RegDepth = 1 Lock = FALSE
 SPECIFICATION Spec
 INVARIANT {inv}
 CHECK_DEADLOCK FALSE
 """
-REFUTE = [("ExclusiveEraseIsAccepted", 3, 2), ("MarginBoundWrapIsAccepted", 2, 4)]   # (wrong variant the comparator must refute, W, H)
+# (wrong variant the comparator must refute, W, H)
+REFUTE = [("ExclusiveEraseIsAccepted", 3, 2), ("MarginBoundWrapIsAccepted", 2, 4), ("FrozenDecoderIsAccepted", 4, 2)]
 
 
-def sim_behaviours(chk, w, h, depth, clean, ext, num, jobs):
-    return tlc.simulate("VTerm", SIM_CFG.format(w=w, h=h, d=depth, clean="TRUE" if clean else "FALSE", ext=ext), num=num, depth=depth + 1,
-                        seed=chk.seed + (7 if clean else 0) + 13 * w + 101 * h + 3 * ext, jobs=jobs, timeout=900)
+def sim_behaviours(chk, w, h, depth, clean, ext, lock, num, jobs):
+    return tlc.simulate("VTerm", SIM_CFG.format(w=w, h=h, d=depth, clean="TRUE" if clean else "FALSE", ext=ext, lock="TRUE" if lock else "FALSE"),
+                        num=num, depth=depth + 1, seed=chk.seed + (7 if clean else 0) + 13 * w + 101 * h + 3 * ext + (0 if lock else 5), jobs=jobs,
+                        timeout=900)
 
 
 def sim_specs(plan, behs, rng):
-    w, h, depth, clean, ext = plan
+    w, h, depth, clean, ext, lock = plan
     out = []
-    for b in behs:
+    for bi, b in enumerate(behs):
         steps = []
         for st in b[1:]:
             c = st["last"]
             steps.append(make_step({"t": c["t"], "a": c["a"], "b": c["b"], "ps": list(c["ps"])}, rng))
         if rng.random() < 0.5:
             steps.append({"t": "view", "k": rng.randint(1, 2 * h + 2)})
-        out.append(({"w": w, "h": h, "steps": steps, "driver": ("tlc-simulate-clean" if clean else "tlc-simulate") + ("-ext" if ext else "")}, b))
+        spec = {"w": w, "h": h, "steps": steps, "driver": ("tlc-simulate-clean" if clean else "tlc-simulate") + ("-ext" if ext else "")
+                + ("" if lock else "-charset"), "enc": "utf8" if lock else UNLOCKED_ENCS[bi % len(UNLOCKED_ENCS)]}
+        spec["refeeds"] = refeed_policies(steps, rng, 8, 1) if not lock else light_refeeds(steps, rng)
+        out.append((spec, b))
     return out
 
 
@@ -825,7 +1138,7 @@ def region_specs(w, h, leaves, rng):
     out = []
     for st in leaves:
         steps = [make_step({"t": c["t"], "a": c["a"], "b": c["b"], "ps": list(c["ps"])}, rng) for c in st["hist"][1:]]
-        out.append(({"w": w, "h": h, "steps": steps, "driver": "tlc-region-family"}, st))
+        out.append(({"w": w, "h": h, "steps": steps, "driver": "tlc-region-family", "refeeds": [{"mode": "whole"}]}, st))
     return out
 
 
@@ -836,11 +1149,14 @@ def _sig_a(tr, l, why):
     as_coded = detail.endswith("as_coded")     # TLC: the observation is exactly what a transcribed known defect computes
     detail = detail[:-len("as_coded")].rstrip(".") if as_coded else detail
     sig = {"part": "faithfulness", "op": e["t"], "detail": detail, "as_coded": as_coded, "exc": e["exc"]}
+    if e["t"] == "refeed":
+        sig["chunking"] = e["policy"]["mode"]
+        sig["enc"] = tr["spec"].get("enc", "utf8")
     if e["t"] in ("el", "ed"):
         sig["mode"] = e["a"]
     sig["width_1"] = e["w"] == 1
     for k in ("d_stale_pending", "d_stale_by", "d_pending_in", "d_row_vs_region", "d_cx_gt0", "d_om", "d_true_palette_mix", "d_bright_carried",
-              "d_sgr_trailing_zero_component", "d_restored_after_scs", "d_charset_stale"):
+              "d_sgr_trailing_zero_component", "d_restored_after_scs", "d_charset_stale", "d_switch_and_high_bytes_in_one_feed"):
         sig[k[2:]] = e[k]
     return clause, sig
 
@@ -852,25 +1168,31 @@ def _sig_b(tr, l, why):
     for k in e:
         if k.startswith("d_") and k != "d_cols":
             sig[k[2:]] = e[k]
-    return why, sig
+    clause, _, detail = why.partition(".")
+    if detail:
+        sig["detail"] = detail
+    if e["t"] == "rechunk":
+        sig["chunking"] = e["policy"]["mode"]
+    return clause, sig
 
 
 def _handle(chk, traces, res, label):
     for ti, l, why in res.rejects:
         tr = traces[ti]
         clause, sig = (_sig_a if tr["kind"] == "a" else _sig_b)(tr, l, why)
-        e = {k: v for k, v in tr["ev"][l - 1].items() if k not in ("g", "sb")}
+        e = {k: v for k, v in tr["ev"][l - 1].items() if k not in ("g", "sb", "g0", "sb0")}
         chk.reject(f"C15.{clause}", sig, {"driver": label, "kind": tr["kind"], "spec": tr["spec"], "rejected_event_index": l,
                                           "why": why, "observed": e})
 
 
-_EV_KEYS = ("t", "a", "b", "ps", "exc", "w", "h", "k", "rot", "pend", "g", "cur", "sb", "pen", "reg", "tabs", "md", "reps", "view",     # (a)
-            "hang", "nq", "qk", "lens", "ccur")                                                                                      # (b)
+_EV_KEYS = ("t", "a", "b", "ps", "exc", "w", "h", "k", "rot", "pend", "g", "cur", "sb", "pen", "reg", "tabs", "md", "cs", "reps", "view",     # (a)
+            "hang", "nq", "qk", "lens", "ccur",                                                                                      # (b)
+            "st", "g0", "sb0", "cur0", "ccur0", "reg0", "st0", "reps0")                                                              # (b) rechunk
 
 
 def _validate(chk, name, traces, strict, jobs, batch=6000):
     # TLC reads the whole JSON: only what VTermTrace.tla looks at is written (no replay spec, no diagnostics)
-    slim = [{"kind": tr["kind"], "w": tr["w"], "h": tr["h"], "ev": [{k: e[k] for k in _EV_KEYS if k in e} for e in tr["ev"]]} for tr in traces]
+    slim = [{"kind": tr["kind"], "w": tr["w"], "h": tr["h"], "lock": tr["lock"], "ev": [{k: e[k] for k in _EV_KEYS if k in e} for e in tr["ev"]]} for tr in traces]
     return tlc.validate("VTermTrace", slim, env={"C15_STRICT": "1" if strict else "0"}, jobs=jobs, batch_events=batch, timeout=3000)
 
 
@@ -888,6 +1210,8 @@ def run(chk):
     # ---- (b) robustness: the streams run in forked workers while TLC works on the model and on (a) -------------
     gen = BGen(rng_b, 6 if quick else 60)
     b_specs = directed_b_specs() + [gen.trace_spec() for _ in range(1500 if quick else 50000)]
+    for i, sp in enumerate(b_specs):       # quick tier: the two extreme chunkings for every stream, a random one for every fourth
+        sp["rechunk_cuts"] = (i % 4 == 0) if quick else 2
     hangy = [s for s in b_specs if s["hangy"]]
     calm = [s for s in b_specs if not s["hangy"]]
     pool = mp.get_context("fork").Pool(6)        # forked before any thread exists in this process
@@ -897,14 +1221,19 @@ def run(chk):
         # ---- TLC on the model: laws of the reference under all bounded command sequences, refutations, and the two generators
         #      (random behaviours, exhaustive region family); the runs overlap (JVM start dominates each of them) ------------------
         n_sim = 100 if quick else 800
-        # (W, H, depth, clean profile, percent of commands outside the listed subset)
-        plan = [(4, 3, 16, True, 0), (3, 3, 14, False, 0), (4, 4, 18, True, 40), (9, 2, 14, True, 50)]
+        # (W, H, depth, clean profile, percent of commands outside the listed subset, terminal locked to UTF-8)
+        plan = [(4, 3, 16, True, 0, True), (3, 3, 14, False, 0, True), (4, 4, 18, True, 40, True), (9, 2, 14, True, 50, True),
+                (5, 3, 12, True, 70, False)]
         if not quick:
-            plan += [(3, 4, 20, True, 0), (2, 2, 12, False, 0), (5, 2, 16, True, 0), (3, 5, 24, True, 30), (17, 3, 20, True, 50), (1, 3, 12, True, 40),
-                     (4, 4, 16, False, 30)]
-        mcs = [("MC_VTerm_3x3", dict(w=3, h=3, d=3 if quick else 4, ext=0)), ("MC_VTerm_ext_3x3", dict(w=3, h=3, d=2 if quick else 3, ext=1))]
+            plan += [(3, 4, 20, True, 0, True), (2, 2, 12, False, 0, True), (5, 2, 16, True, 0, True), (3, 5, 24, True, 30, True),
+                     (17, 3, 20, True, 50, True), (1, 3, 12, True, 40, True), (4, 4, 16, False, 30, True), (3, 2, 16, True, 80, False),
+                     (9, 4, 20, False, 60, False), (1, 2, 10, True, 70, False)]
+        # the extended alphabet is explored on the terminal whose main character set the program selects (Lock = FALSE)
+        mcs = [("MC_VTerm_3x3", dict(w=3, h=3, d=3 if quick else 4, ext=0, lock="TRUE")),
+               ("MC_VTerm_ext_3x3", dict(w=3, h=3, d=2 if quick else 3, ext=1, lock="FALSE"))]
         if not quick:
-            mcs += [("MC_VTerm_4x3", dict(w=4, h=3, d=3, ext=0)), ("MC_VTerm_2x4", dict(w=2, h=4, d=4, ext=0))]
+            mcs += [("MC_VTerm_4x3", dict(w=4, h=3, d=3, ext=0, lock="TRUE")), ("MC_VTerm_2x4", dict(w=2, h=4, d=4, ext=0, lock="TRUE")),
+                    ("MC_VTerm_ext_locked_3x2", dict(w=3, h=2, d=2, ext=1, lock="TRUE"))]
         regs = [(3, 4, 2)] if quick else [(3, 4, 2), (2, 5, 3), (4, 5, 2), (3, 3, 3), (2, 2, 3)]
         with cf.ThreadPoolExecutor(3) as ex:
             f_reg = [ex.submit(region_family, w, h, rd, 4) for w, h, rd in regs]
@@ -938,10 +1267,17 @@ def run(chk):
         a_specs = [s for s, _ in sims]
         n_rand = 450 if quick else 8000
         n_rand_ext = 250 if quick else 4000
+        n_charset = 90 if quick else 4000
         a_specs += [random_a_spec(rng) for _ in range(n_rand)]
         a_specs += [random_a_spec(rng, ext=0.45) for _ in range(n_rand_ext)]
         a_specs += directed_a_specs(rng)
         a_specs += scrollback_view_specs(rng, (1, 2, 3) if quick else (1, 2, 3, 4, 5, 6))
+        for sp in a_specs:          # every stream once more in one feed and under one other chunking
+            if "refeeds" not in sp:
+                sp["refeeds"] = light_refeeds(sp["steps"], rng)
+        # the main character set selected in mid-stream: cut at every single position
+        a_specs += [random_charset_spec(rng, -1, 2 if quick else 5) for _ in range(n_charset)]
+        a_specs += directed_charset_specs(rng)
         # in the forked workers: a collection of this process's large heap in the middle of a feed would trip the CPU-time watchdog
         a_traces = pool.map(run_a, a_specs, chunksize=32)
         # spec -> code: how far each TLC behaviour's states agree with the emulator (informational)
@@ -970,7 +1306,8 @@ def run(chk):
         for drv, idx in by_driver.items():
             k = (30 if quick else 600) if drv != "tlc-region-family" else (80 if quick else 1500)
             sub_idx += idx[:: max(1, len(idx) // k)][:k]
-        sub = [a_traces[i] for i in sub_idx]
+        # (the re-fed streams come after the commands of a trace and are left to the tolerant pass)
+        sub = [{**a_traces[i], "ev": [e for e in a_traces[i]["ev"] if e["t"] != "refeed"]} for i in sub_idx]
         b_traces = fut_hangy.get(timeout=3000) + fut_calm.get(timeout=3000)
     finally:
         pool.terminate()
@@ -1024,8 +1361,19 @@ def run(chk):
         kinds[key] = kinds.get(key, 0) + 1
 
     for tr in a_traces:
+        u8 = tr["lock"] == 1      # the decoder in force, followed along the commands (counters only)
         for e in tr["ev"]:
             cnt("a." + e["t"])
+            if e["t"] == "mcs" and not tr["lock"]:
+                u8 = e["a"] == 1
+                cnt("a.charset.selected_" + ("utf8" if u8 else "8bit") + "_by_the_program")
+            if e["t"] == "raw" and not e["exc"]:
+                cnt("a.charset.raw_bytes_decoded_as_" + ("utf8" if u8 else "8bit") + ("" if tr["lock"] else "_by_selection"))
+            if e["t"] == "refeed":
+                cnt("a.refeed." + ("single_cut" if len(e["policy"].get("cuts", [])) == 1 else "random_cuts" if e["policy"]["mode"] == "cuts" else e["policy"]["mode"]))
+                if e["d_switch_and_high_bytes_in_one_feed"] and not tr["lock"]:
+                    cnt("a.refeed.charset_selected_and_bytes_above_0x7f_in_the_same_feed")
+                    nontriv.add(json.dumps(["refeed", tr["spec"].get("enc"), [st.get("pieces") for st in tr["spec"]["steps"]], e["policy"]]))
             if e["t"] in CMDS:
                 nontriv.add(json.dumps([e["t"], e["a"], e["b"], e["ps"], e["g"], e["cur"], e["md"], e["reps"]]))
             if e["t"] in CMDS and e["reg"] != [0, e["h"] - 1]:
@@ -1049,9 +1397,9 @@ def run(chk):
                     cnt("a.region.inside.text_wrap_scrolls_a_region_above_the_last_row")
                 if e["d_om"]:
                     cnt("a.origin_mode." + e["t"])
-                if e["md"][1] and e["t"] in ("put", "txt"):
+                if e["md"][1] and e["t"] in TEXT_CMDS:
                     cnt("a.insert_mode.text")
-                if not e["md"][2] and e["t"] in ("put", "txt"):
+                if not e["md"][2] and e["t"] in TEXT_CMDS:
                     cnt("a.autowrap_off.text")
                 if e["md"][3] and e["t"] == "lf":
                     cnt("a.newline_mode.lf")
@@ -1061,8 +1409,14 @@ def run(chk):
                     nontriv.add(json.dumps(["cpr-at", e["w"], e["h"], e["cur"], e["reg"], e["d_om"]]))
                     cnt("a.reply.cpr." + rel)
     for tr in b_traces:
+        sw = re.search(rb"\x1b%[G8@][^\x1b]*[\x80-\xff]", b"".join(bytes.fromhex(op["hex"]) for op in tr["spec"]["ops"] if op["t"] == "feed"))
         for e in tr["ev"]:
             cnt("b." + e["t"])
+            if e["t"] == "rechunk":
+                cnt("b.rechunk." + e["policy"]["mode"])
+                if sw and tr["spec"]["enc"] != "utf8" and e["policy"]["mode"] != "bytes":
+                    cnt("b.rechunk.charset_selected_then_bytes_above_0x7f")
+                continue
             if e["reps"]:
                 kinds["b.replies"] = kinds.get("b.replies", 0) + len(e["reps"])
             if e["nq"] == 1:
@@ -1077,6 +1431,10 @@ def run(chk):
     chk.cov["distinct_nontrivial"] = len(nontriv)
     need = ["a." + k for k in CMDS] + ["a.resize", "a.view", "a.inside_a_scrolling_region", "a.with_scrollback", "b.feed", "b.rsz", "b.replies",
                                        "b.query_probe", "b.at_1x1"]
+    need += ["a.refeed.whole", "a.refeed.bytes", "a.refeed.single_cut", "a.refeed.random_cuts", "a.refeed.charset_selected_and_bytes_above_0x7f_in_the_same_feed",
+             "a.charset.selected_utf8_by_the_program", "a.charset.selected_8bit_by_the_program", "a.charset.raw_bytes_decoded_as_utf8_by_selection",
+             "a.charset.raw_bytes_decoded_as_8bit_by_selection", "a.charset.raw_bytes_decoded_as_utf8",
+             "b.rechunk.whole", "b.rechunk.bytes", "b.rechunk.cuts", "b.rechunk.charset_selected_then_bytes_above_0x7f"]
     need += [f"a.region.{rel}.{op}" for rel in ("above", "inside", "below") for op in REGION_OPS]
     need += [f"a.region.{rel}.text_wraps_to_the_next_row" for rel in ("above", "inside", "below")]
     need += ["a.view.scrolled_back_up_to_one_screen", "a.view.scrolled_back_one_to_two_screens", "a.view.scrolled_back_two_screens_or_more",
@@ -1090,17 +1448,22 @@ def run(chk):
     if not n_region:
         chk.vacuity.append("driver.tlc_region_family")
     chk.cov["rule"] = ("(a) command sequences over put/CR/LF/BS/RI/CUP/CUU/CUD/CUF/CUB/EL/ED/ICH/DCH/IL/DL/DECSTBM/SGR and, next to the listed subset, text runs/"
-                       "IND/NEL/CHA/VPA/CNL/CPL/ECH/HT/HTS/TBC/DECOM/IRM/DECAWM/LNM/DECSC/DECRC/CSI s/CSI u/SO/SI/SCS/CPR/DSR/DA: TLC -simulate behaviours of "
+                       "IND/NEL/CHA/VPA/CNL/CPL/ECH/HT/HTS/TBC/DECOM/IRM/DECAWM/LNM/DECSC/DECRC/CSI s/CSI u/SO/SI/SCS/ESC % G/ESC % @/raw bytes >= 0x80 (UTF-8 "
+                       "sequences or 8-bit characters, decoded by the reference)/CPR/DSR/DA: TLC -simulate behaviours of "
                        "VTerm.tla (clean and full profile, with and without the extended commands), the exhaustive scrolling-region family of VTerm.tla "
                        "(screen filled x mode prelude x every region x cursor on every row at both edges x every region-sensitive command x a further "
                        "text run; tlc -dump) and seeded random sequences with resizes and scrolled-back views, fed as bytes in random chunks "
-                       "to a real TermCanvas, one event per command; (b) random streams of well-formed and malformed CSI/OSC/charset sequences, valid / "
+                       "to a real TermCanvas, one event per command, then every stream fed again to fresh emulators in one feed and under another "
+                       "chunking (the charset families, urwid encodings utf-8 / iso8859-1 / utf8: in one feed, byte by byte, cut at every single "
+                       "position, random cuts) and judged against the same reference state; (b) random streams of well-formed and malformed CSI/OSC/charset sequences, valid / "
                        "truncated / invalid UTF-8, C0/C1 controls, huge / zero / missing parameters, cut at random positions into feeds, with resizes "
-                       "down to 1x1 and query probes, four encodings, with and without focus; distinct = distinct (command, resulting grid, cursor, modes, replies)")
+                       "down to 1x1 and query probes, four encodings, with and without focus, each stream fed again in one feed / byte by byte / "
+                       "with other cuts and both outcomes compared; distinct = distinct (command, resulting grid, cursor, modes, replies)")
     chk.cov["exhaustive"] = True
     chk.cov["bounds"] = {"mc_grid": "3x3 depth %d (listed subset), depth %d (with extended commands)" % ((3, 2) if quick else (4, 3)),
                          "region_family": [f"{w}x{h} depth {rd}" for w, h, rd in regs], "region_family_histories": n_region,
                          "tlc_simulated_sequences": len(sims) - n_region, "random_sequences": n_rand, "random_sequences_extended": n_rand_ext,
+                         "random_sequences_charset_every_cut": n_charset,
                          "robustness_streams": len(b_specs), "hang_candidates": len(hangy), "watchdog_cpu_seconds": CPU_BUDGET_S}
     chk.sample({"faithfulness_steps": [{k: v for k, v in s.items()} for s in a_specs[0]["steps"][:6]], "grid_after_last": a_traces[0]["ev"][-1]["g"]})
     chk.sample({"robustness_ops": b_specs[1]["ops"][:4], "events": [{k: v for k, v in e.items() if not k.startswith("d_")} for e in b_traces[1]["ev"][:3]]})
@@ -1108,6 +1471,10 @@ def run(chk):
                                "vf/props/c15.py: Stub widget, command encoder, cell projection pen_of/cell_of (AttrSpec accessors), CPU-time watchdog",
                                "vf/term.char_width (only for the wide-glyph DIVERGENCE)"]
     chk.assumptions += ["faithfulness uses width-1 glyphs in utf8 mode; wide glyphs only in (b)",
+                        "raw bytes of part (a) are well-formed for the character set in force (UTF-8 sequences of characters the urwid encoding can "
+                        "show; 0xA0..0xFF as 8-bit characters: 0x80..0x9F are C1 controls); malformed and truncated UTF-8 only in (b)",
+                        "while UTF-8 is selected by ESC % G the console does not designate G0 / G1 (ESC ( 0 is ignored): accepted as console dialect",
+                        "a re-fed stream is judged at its end only (final screen, cursor, scrollback, pen, region, tab stops, modes, all replies)",
                         "G1 is invoked (SO) only after it has been designated: the console's default G1 is the graphics set, a VT100's is ASCII",
                         "CSI s / CSI u save and restore the cursor position only (SCO); ESC 7 / ESC 8 also the rendition and the charsets, not the modes",
                         "autowrap off: the last-column flag is never set; HT leaves it alone on a VT100 and clears it on the console (both accepted)",
